@@ -194,10 +194,16 @@ func propCheck(c Case, outdir string) (what string) {
 			return ""
 		}
 	}
+	tipWindow := false
 	if fl := flagsOf(c, n, k); c.Op.Name == "Tip" && fl.Proper && (c.Sparse || !fl.Transposed) {
-		// Tip is specified for matrices that own their whole storage only; on a transposed
-		// window it merely clears the flag (2ffe99c), which is checked like any other case
-		return ""
+		// Tip on a transposed window merely clears the flag (2ffe99c), which is checked like any
+		// other case.  On a NON-transposed proper window of a dense matrix the code permutes the
+		// parent's whole storage with the window's row count (F-TIP-VIEW): checked like any other
+		// operation, plus the frame of the parent, whenever that loop terminates at all.
+		if c.Sparse || !tipTerminates(n, c.Rows*c.Cols) {
+			return ""
+		}
+		tipWindow = true
 	}
 	// (b) operation on the view vs on an independent deep copy
 	dc := newMatrix(c.Sparse, t, n, k, want)
@@ -227,7 +233,26 @@ func propCheck(c Case, outdir string) (what string) {
 		return fmt.Sprintf("after %s the view holds %v, the deep copy %v", c.Op.Name, v1, d2)
 	}
 	if c.Op.Name == "Tip" {
-		return "" // the parent handle keeps its old shape over permuted storage
+		if tipWindow { // the parent keeps its shape: what the window does not denote must not move
+			denoted := map[[2]int]bool{}
+			for i := 0; i < n; i++ {
+				for j := 0; j < k; j++ {
+					denoted[co[i][j]] = true
+				}
+			}
+			b1, pb := matElems(base)
+			if pb {
+				return "reading the parent after Tip on a window panicked"
+			}
+			for i := 0; i < c.Rows; i++ {
+				for j := 0; j < c.Cols; j++ {
+					if !denoted[[2]int{i, j}] && b1[i*c.Cols+j] != c.Vals[i*c.Cols+j] {
+						return fmt.Sprintf("after Tip on a window the parent holds %v, was %v: element (%d,%d) outside the window moved", b1, c.Vals, i, j)
+					}
+				}
+			}
+		}
+		return "" // whole storage: the parent handle keeps its old shape over permuted storage
 	}
 	// (c) the parent: denoted positions hold the deep copy's elements, the rest is unchanged
 	exp := append([]int64{}, c.Vals...)
